@@ -59,7 +59,10 @@ def make_overlay(tmp, flavour):
     cdir = os.path.join(REPO, "crolt")
     if os.path.isdir(cdir):
         for f in sorted(os.listdir(cdir)):
-            if not f.endswith(".go") or f.endswith("_test.go"):
+            if not f.endswith(".go"):
+                continue
+            if f.endswith("_test.go"):
+                ov[os.path.join(cdir, f)] = ""  # hidden from the build (its package clause is `main`)
                 continue
             src = open(os.path.join(cdir, f)).read()
             out = []
